@@ -11,7 +11,7 @@ from .common import Spec, Claims, m2i, i2m, ALL, in_nets
 PROPERTY = "C06"
 BOUNDS = ("per class: Port (5 operators, names), Protocol (names / symbolic number), Option (flag/log token sets), Wildcard (12 masks), "
           "Address (17 forms x platform), AddressAg (native member spellings x platform, with sequence numbers), AddrGroup (1..3 "
-          "members, numbered or not, indent 1/2/4), Remark (14 text shapes x sequence), Ace (the C01 covering array), AceGroup and "
+          "members, numbered or not, indent 1/2/4), Remark (21 text shapes incl. punctuation next to spaces x sequence), Ace (the C01 covering array), AceGroup and "
           "Acl (relation templates of <=4 lines, numbered or not, grouped or not, indent 0/1/2/4, extended and standard), config "
           "functions acls()/addrgroups(); all numerals symbolic.  Strict one-step fixpoint text+data for text the library itself "
           "rendered; two-step text stability + unchanged meaning for foreign inputs.")
@@ -224,7 +224,7 @@ def h_addr_group(ctx):
     return None
 
 
-REMARK_TEXTS = ["text", "10 leading digits", "permit ip any any", "deny inside text", "= heading, with comma", "a  b   c",
+REMARK_TEXTS = ["a ? b", "is it used ?", "? todo check", "why?", "x ! y", "# hash ; semi", "(paren) [bracket]", "text", "10 leading digits", "permit ip any any", "deny inside text", "= heading, with comma", "a  b   c",
                 "trailing.punct!", "remark remark", "x", "99", "tab\there", "=== C-1 ===", "any host 10.0.0.1", "ünicode"]
 
 
